@@ -100,6 +100,71 @@ def drive_a(rec, cases):
     rec.data["ok"] = ok
 
 
+def drive_huge(rec):
+    """rows that are 16 .. 32 GiB apart (row strides beyond 32 bits) and very many rows (16384 and more, a source of 2 .. 5 GiB), in sparse
+    mappings; destinations at 0, 8 and 24 bytes past a 64-byte boundary.  For the strides the rows hold the values an injective probe with
+    the small stride 2m+8 would hold, so that the observation is judged by the same address map of the specification."""
+    from props.c08 import Sparse
+    rng = random.Random(rec.seed + 171)
+    L = Lib.get()
+    events = []
+    for (m, sl, nrows) in [(8, (1 << 31) + 8, 3), (16, (1 << 32) + 40, 2), (4, 1 << 32, 2)]:
+        sp = Sparse(8 * sl * (nrows - 1) + (1 << 16))
+        if sp.addr is None:
+            rec.notes.append("reim4 huge strides: a sparse mapping of %d GiB was refused by the system (not a verdict)" % ((8 * sl * (nrows - 1)) >> 30))
+            continue
+        S = 2 * m + 8
+        for i in range(nrows):
+            sp.i64(8 * i * sl, 2 * m).view(np.float64)[:] = i * S + np.arange(2 * m)
+        for variant in ("ref", "avx"):
+            for blk in sorted({0, m // 4 - 1}):
+                label = "reim4 strided_%s m=%d blk=%d nrows=%d with rows %d doubles apart" % (variant, m, blk, nrows, sl)
+                if not rec.progress(label):
+                    continue
+                dst = Buf(64 * nrows, off=rng.choice([0, 8, 24]))
+                dst.f64[:] = -1
+                L.fn("reim4_extract_1blk_from_contiguous_reim_sl_" + variant, "v uuuupp")(m, sl, nrows, blk, dst.addr, sp.addr)
+                rec.case(("huge", "strided", variant, m))
+                if not dst.canaries_ok():
+                    rec.violation(label + ": write outside the destination", {})
+                    continue
+                got = dst.f64.astype(np.int64)
+                events.append({"e": "Map", "kind": "strided", "m": m, "blk": blk, "nrows": nrows, "sl": S, "idx": list(range(len(got))),
+                               "obs": [int(v) for v in got], "_what": label})
+        sp.close()
+    for (m, nrows) in [(8192, 16384), (16384, 20000)]:
+        sp = Sparse(16 * m * nrows + (1 << 16))
+        if sp.addr is None:
+            rec.notes.append("reim4 many rows: a sparse mapping of %d GiB was refused by the system (not a verdict)" % ((16 * m * nrows) >> 30))
+            continue
+        src = sp.i64(0, 2 * m * nrows).view(np.float64).reshape(nrows, 2 * m)
+        blks = sorted({0, m // 4 - 1})
+        for blk in blks:                    # only the cells of the two blocks are written (two pages per row)
+            for c0 in (4 * blk, m + 4 * blk):
+                src[:, c0:c0 + 4] = np.arange(nrows, dtype=np.float64)[:, None] * (2 * m) + c0 + np.arange(4, dtype=np.float64)[None, :]
+        for variant in ("ref", "avx"):
+            for blk in blks:
+                for off in (0, 8, 24):
+                    label = "reim4 contig_%s m=%d blk=%d nrows=%d destination %d bytes past a 64-byte boundary" % (variant, m, blk, nrows, off)
+                    if not rec.progress(label):
+                        continue
+                    dst = Buf(64 * nrows, off=off)
+                    dst.f64[:] = -1
+                    L.fn("reim4_extract_1blk_from_contiguous_reim_" + variant, "v uuupp")(m, nrows, blk, dst.addr, sp.addr)
+                    rec.case(("huge", "contig", variant, m, off))
+                    if not dst.canaries_ok():
+                        rec.violation(label + ": write outside the destination", {})
+                        continue
+                    got = dst.f64.astype(np.int64)
+                    n = len(got)
+                    idx = sorted(set(list(range(16)) + list(range(n - 16, n)) + list(range(8 * 16383 - 8, min(n, 8 * 16385))) +
+                                     [rng.randrange(n) for _ in range(40)]))
+                    events.append({"e": "Map", "kind": "contig", "m": m, "blk": blk, "nrows": nrows, "sl": 0, "idx": idx,
+                                   "obs": [int(got[i]) for i in idx], "_what": label})
+        sp.close()
+    rec.data["events"] = events
+
+
 def drive_layout_b(rec, ms, quick):
     rng = random.Random(rec.seed * 41 + ms[0])
     L = Lib.get()
@@ -375,8 +440,9 @@ def run(chk, replay=None):
     ms = [4, 8, 16, 32, 64, 128, 512, 2048, 8192, 65536] if quick else [1 << s for s in range(2, 17)]
     jobs = [("reim4 layout probes m=%s" % ms[i::4], drive_layout_b, (ms[i::4], quick)) for i in range(4)]
     jobs.append(("reim4 arithmetic kernels on integer data", drive_arith, (quick,)))
-    res = isolated_many(chk, jobs, timeout=1800, nproc=5)
-    lay = [ev for d in res[:4] if d for ev in d["events"]]
+    jobs.append(("reim4 extraction with rows gigabytes apart, and from 16384 and more rows", drive_huge, ()))
+    res = isolated_many(chk, jobs, timeout=1800, nproc=6)
+    lay = [ev for d in res[:4] + res[5:6] if d for ev in d["events"]]
     ari = [ev for ev in (res[4]["events"] if res[4] else [])]
     r2 = isolated_many(chk, [("pointwise kernels, integer data part %d" % i, c13.drive_pw_b, (i, 100 if quick else 4000)) for i in range(2)] +
                        [("pointwise kernels, rounding on general data", drive_rounding, (150 if quick else 8000,))], timeout=900, nproc=3)
